@@ -9,6 +9,9 @@ ASSUMPTIONS = {
     "A-async": "no asynchronous exception (KeyboardInterrupt between bytecodes, MemoryError) is modelled",
     "A-posix": "Linux/posix, CPython 3.12: branches on sys.platform == 'win32' / os.name != 'posix' are pruned",
     "A-kernel": "a worker's sentinel becomes readable iff the process is gone; pipe EOF iff all writers are gone; <=512-byte pipe writes are atomic",
+    "A-alias": "the manager thread's tables (processes, pending, running, management lock) are the very objects of the executor its weak reference points to (set once in _ExecutorManagerThread.__init__)",
+    "A-pids": "keys of the process table are the pids of started, un-reaped children; the OS gives no new child the pid of an un-reaped one",
+    "A-psutil": "psutil's memory probe of the worker's own pid does not raise",
     "A-finalize": "util.Finalize callbacks run when the object is collected or at interpreter exit",
 }
 
